@@ -650,6 +650,7 @@ fn stream_arity(run: &mut Run) {
 }
 
 pub fn stream_robustness(run: &mut Run) {
+    run.rule.push_str(" Arity stream: for every node of every corpus text the number of node / graph dependencies is changed (drop last, repeat first, append 0, drop all): must be rejected or accepted as a context whose every node has the arity of its operation (own table).");
     stream_arity(run);
     stream_context_robustness(run);
     stream_value_robustness(run);
